@@ -64,11 +64,12 @@ func (f *family) entryName() string {
 
 // sizes of the two tiers.
 func sizesFor(thorough bool) []int {
-	s := []int{256, 512, 1024, 2048, 4096, 8192}
 	if thorough {
-		s = append(s, 16384, 32768, 65507)
+		return []int{256, 512, 1024, 2048, 4096, 8192, 16384, 32768, 65507}
 	}
-	return s
+	// quick: fewer intermediate sizes, but the maximum UDP payload is always measured: a cost term of
+	// n^2/16 first exceeds the linear bound (K = 1024) beyond n = 16 k
+	return []int{256, 1024, 4096, 8192, 65507}
 }
 
 // ---------------------------------------------------------------- byte helpers
